@@ -529,3 +529,23 @@ func init() {
 		return p
 	}
 }
+
+func init() {
+	plans["C08"] = func(tier string) Plan {
+		p := Plan{ID: "C08", Level: "fault_enumeration",
+			Rule: "three scripted scenarios (create / subscribe / push / pull-only / concurrent pushes, counter and list) are first run fault-free to count the K database commands they issue (including the background " +
+				"notification + snapshot update); then for EVERY k in 1..K the k-th command is made to fail, and in a second pass to be the last command before the server dies (connections closed, in-flight " +
+				"request answered with a transport error, new service + lock registry over the surviving database); thorough adds pairs k<k2<=k+12; oracle: no hang under virtual time, no worker death, " +
+				"no client panic, and after fault-free retries by all clients: log invariants, every acknowledged operation stored, every issued operation stored exactly once, clients = server rebuild = " +
+				"C02 reference of the log, stored snapshots and user documents equal the log replay; distinct non-trivial = distinct (scenario, fault kind, outcome class)",
+			Assume: []string{assumeE2, assumeInstr, "a dying server is modelled by the database refusing everything after command k plus a transport error for the in-flight call"}}
+		if tier == "quick" {
+			p.BudgetS = 600
+			p.Runs = []Run{{Name: "single-faults", Check: "C08", Kind: "dbfault", Cases: true, Params: map[string]interface{}{}, Shards: 16}}
+		} else {
+			p.BudgetS = 3300
+			p.Runs = []Run{{Name: "single-and-pair-faults", Check: "C08", Kind: "dbfault", Cases: true, Params: map[string]interface{}{"pairs": true}, Shards: 16}}
+		}
+		return p
+	}
+}
